@@ -79,6 +79,10 @@ pub(crate) mod rounding;
 #[doc(hidden)]
 pub(crate) mod utils;
 
+#[cfg(feature = "verif_hooks")]
+#[doc(hidden)]
+pub mod verif_hooks;
+
 use core::cmp::Ordering;
 
 // TODO: evaluate positives and negatives of using tinystr. Re-exporting
